@@ -221,6 +221,101 @@ fn reuse_mismatch(alg: Algorithm, as_str: bool, old: &[u8], new: &[u8], r1: Rend
     })
 }
 
+/// SETTER SEQUENCES: one formatter object receives a random sequence of setter calls (radius, hint and
+/// header, each possibly several times, in any order) with renderings in between; what it renders at the
+/// end must be what a fresh formatter renders that received each setter ONCE with the last value, in two
+/// different orders.  (A setter that resets or accumulates another option, or a stale cache, shows here.)
+fn setter_sequence_mismatch(alg: Algorithm, as_str: bool, old: &[u8], new: &[u8], seed: u64) -> Result<Option<String>, String> {
+    let mut rng = Rng::for_case(seed, "c05.setter_sequence", crate::engine::digest(&(old, new, as_str)));
+    const NAMES: [(&str, &str); 3] = [("old.txt", "new.txt"), ("a/file", "b/file"), ("x", "y")];
+    let steps: Vec<(u8, usize)> = (0..2 + rng.below(6))
+        .map(|_| match rng.below(5) {
+            0 | 1 => (0u8, *rng.pick(&[0usize, 1, 2, 3, 5, 9])),
+            2 => (1u8, rng.below(2)),
+            3 => (2u8, rng.below(3)),
+            _ => (3u8, rng.below(3)),
+        })
+        .collect();
+    let (mut radius, mut hint, mut header) = (3usize, true, None);
+    for (k, v) in &steps {
+        match k {
+            0 => radius = *v,
+            1 => hint = *v == 1,
+            2 => header = Some(NAMES[*v]),
+            _ => {}
+        }
+    }
+    let steps2 = steps.clone();
+    guard(move || {
+        let mut c = TextDiff::configure();
+        c.algorithm(alg);
+        macro_rules! go {
+            ($d:expr) => {{
+                let d = $d;
+                let mut u = d.unified_diff();
+                for (k, v) in &steps2 {
+                    match k {
+                        0 => {
+                            u.context_radius(*v);
+                        }
+                        1 => {
+                            u.missing_newline_hint(*v == 1);
+                        }
+                        2 => {
+                            u.header(NAMES[*v].0, NAMES[*v].1);
+                        }
+                        _ => match v {
+                            0 => {
+                                let _ = u.to_string();
+                            }
+                            1 => {
+                                let _ = u.iter_hunks().count();
+                            }
+                            _ => {
+                                let mut w = Vec::new();
+                                u.to_writer(&mut w).unwrap();
+                            }
+                        },
+                    }
+                }
+                let got = u.to_string();
+                let mut got_w = Vec::new();
+                u.to_writer(&mut got_w).unwrap();
+                let mut f1 = d.unified_diff();
+                if let Some((x, y)) = header {
+                    f1.header(x, y);
+                }
+                f1.context_radius(radius).missing_newline_hint(hint);
+                let mut f2 = d.unified_diff();
+                f2.missing_newline_hint(hint).context_radius(radius);
+                if let Some((x, y)) = header {
+                    f2.header(x, y);
+                }
+                let (e1, e2) = (f1.to_string(), f2.to_string());
+                let mut e1_w = Vec::new();
+                f1.to_writer(&mut e1_w).unwrap();
+                if e1 != e2 {
+                    Some(format!("two fresh formatters given radius {} / hint {} / header {:?} in different setter orders render {} and {}", radius, hint, header, show(e1.as_bytes()), show(e2.as_bytes())))
+                } else if got != e1 || got_w != e1_w {
+                    Some(format!(
+                        "after the setter sequence {:?} (0 = radius, 1 = hint, 2 = header #, 3 = a rendering in between) the formatter renders {} but a fresh formatter with the final options radius {} / hint {} / header {:?} renders {}",
+                        steps2, show(&got_w), radius, hint, header, show(&e1_w)
+                    ))
+                } else {
+                    None
+                }
+            }};
+        }
+        if as_str {
+            let so = std::str::from_utf8(old).unwrap();
+            let sn = std::str::from_utf8(new).unwrap();
+            go!(c.diff_lines(so, sn))
+        } else {
+            go!(c.diff_lines(old, new))
+        }
+    })
+}
+
 fn strict_failures(old: &[u8], new: &[u8], bytes: &[u8], r: Render) -> Vec<(&'static str, String)> {
     if old == new {
         return if bytes.is_empty() {
@@ -331,6 +426,13 @@ fn case(cfg: &Config, alg: Algorithm, old: &[u8], new: &[u8], renders: &[Render]
     for as_str in [false, true] {
         if as_str && !valid {
             continue;
+        }
+        out.eval();
+        out.count("setter_sequences_run");
+        match setter_sequence_mismatch(alg, as_str, old, new, cfg.seed) {
+            Err(p) => out.violation("panic", format!("formatter setter sequence panicked: {} | old={} new={}", p, show(old), show(new))),
+            Ok(Some(m)) => out.violation("patch.setter_sequence", format!("{} | alg={} type={} old={} new={}", m, alg_name(alg), if as_str { "str" } else { "[u8]" }, show(old), show(new))),
+            Ok(None) => {}
         }
         for w in renders.windows(2) {
             out.eval();
